@@ -50,9 +50,70 @@ def default_call(name, args):
     return None
 
 
-def run(body, start_bb, env, call=None, max_steps=400):
+NONE = ("variant", "None", [], 0)
+
+
+def some(x):
+    return ("variant", "Some", [x], 1)
+
+
+def _is_opt(v):
+    return isinstance(v, tuple) and len(v) >= 3 and v[0] == "variant" and v[1] in ("Some", "None")
+
+
+def call_closure(prog, clo, args, call, depth):
+    """apply a closure value ('closure', path, upvars) to argument values"""
+    if not (isinstance(clo, tuple) and clo and clo[0] == "closure"):
+        raise Unrecognised("call of a non-closure value %r" % (clo,))
+    cb = prog.body(clo[1])
+    if cb is None:
+        raise Unrecognised("closure body %s missing" % clo[1])
+    env = {1: ("tuple", list(clo[2]))}
+    for i, a in enumerate(args):
+        env[2 + i] = a
+    return run(cb, 0, env, call=call, prog=prog, depth=depth + 1)
+
+
+def option_builtin(prog, name, args, call, depth):
+    """Option combinators over abstract Option values with closure arguments"""
+    if not name.startswith("core::option::Option::"):
+        return None
+    m = name.split("::")[-1]
+    if not args or not _is_opt(args[0]):
+        return None
+    o = args[0]
+    is_some = o[1] == "Some"
+    val = o[2][0] if is_some else None
+    if m == "is_some":
+        return is_some
+    if m == "is_none":
+        return not is_some
+    if m in ("as_ref", "as_mut", "cloned", "copied", "take"):
+        return o
+    if m == "map" and len(args) == 2:
+        return some(call_closure(prog, args[1], [val], call, depth)) if is_some else NONE
+    if m == "and_then" and len(args) == 2:
+        return call_closure(prog, args[1], [val], call, depth) if is_some else NONE
+    if m == "unwrap_or_else" and len(args) == 2:
+        return val if is_some else call_closure(prog, args[1], [], call, depth)
+    if m == "unwrap_or" and len(args) == 2:
+        return val if is_some else args[1]
+    if m == "map_or" and len(args) == 3:
+        return call_closure(prog, args[2], [val], call, depth) if is_some else args[1]
+    if m == "map_or_else" and len(args) == 3:
+        return call_closure(prog, args[2], [val], call, depth) if is_some else call_closure(prog, args[1], [], call, depth)
+    if m == "or_else" and len(args) == 2:
+        return o if is_some else call_closure(prog, args[1], [], call, depth)
+    return None
+
+
+def run(body, start_bb, env, call=None, max_steps=400, prog=None, depth=0):
     """Interpret `body` from block start_bb with initial local environment env {local: value}.
-    Values: int/bool, Sym, ('tuple', [...]), ('variant', name, [...]).  Returns the value of _0."""
+    Values: int/bool, Sym, ('tuple', [...]), ('variant', name, [...]), ('closure', path, upvars).
+    With `prog`, Option combinators taking closures are interpreted by running the closure bodies.
+    Returns the value of _0."""
+    if depth > 6:
+        raise Unrecognised("closure nesting too deep")
     env = dict(env)
     bb = start_bb
     steps = 0
@@ -73,6 +134,9 @@ def run(body, start_bb, env, call=None, max_steps=400):
                     v = v[2][pr["f"]]
                 elif isinstance(v, tuple) and v[0] == "tuple":
                     v = v[1][pr["f"]]
+                elif isinstance(v, Sym):
+                    # a part of an opaque value is an opaque value named after the access path
+                    v = Sym("%s.%s" % (v.name, pr.get("n") if pr.get("n") is not None else pr["f"]))
                 else:
                     raise Unrecognised("field projection on %r" % (v,))
                 continue
@@ -88,6 +152,8 @@ def run(body, start_bb, env, call=None, max_steps=400):
             c = op["const"]
             if "int" in c:
                 return int(c["int"])
+            if isinstance(c.get("tyconst"), dict) and "int" in c["tyconst"]:
+                return int(c["tyconst"]["int"])
             if c.get("zst"):
                 return ("tuple", [])
             if "str" in c:
@@ -162,7 +228,7 @@ def run(body, start_bb, env, call=None, max_steps=400):
             elif k == "agg" and rv["agg"] == "adt":
                 v = ("variant", rv["vname"], [operand(o) for o in rv["ops"]], rv["variant"], tuple(rv["fields"]))
             elif k == "agg" and rv["agg"] == "closure":
-                v = Sym("closure:" + rv["closure"])
+                v = ("closure", rv["closure"], [operand(o) for o in rv["ops"]]) if prog is not None else Sym("closure:" + rv["closure"])
             else:
                 raise Unrecognised("rvalue %s" % k)
             env[lhs["l"]] = v
@@ -190,6 +256,8 @@ def run(body, start_bb, env, call=None, max_steps=400):
             v = None
             if call is not None:
                 v = call(name, args, t)
+            if v is None and prog is not None:
+                v = option_builtin(prog, name, args, call, depth)
             if v is None:
                 v = default_call(name, args)
             if v is None:
